@@ -372,6 +372,12 @@ class FakeNumpy:
         return A.DType(A.join_dtype(*ds))
 
     @staticmethod
+    def shares_memory(a, b, *x, **k):
+        return isinstance(a, Arr) and isinstance(b, Arr) and a.buf is b.buf
+
+    may_share_memory = shares_memory
+
+    @staticmethod
     def iscomplexobj(x):
         if isinstance(x, Arr):
             return x.dt == 'complex'
@@ -477,10 +483,17 @@ def einsum(pattern, *ops):
         for ch, s, g in zip(sub, o.shape, o.legs):
             if ch in size:
                 if not sz_eq(size[ch], s):
-                    raise value_error(f'einsum: size of label {ch!r} does not match: {size[ch]} vs {s}')
+                    if is_one(s):
+                        continue                       # singleton dimensions broadcast
+                    if is_one(size[ch]):
+                        size[ch] = s
+                        holders[ch] = [h for h in holders.get(ch, []) if h[1]]
+                    else:
+                        raise value_error(f'einsum: size of label {ch!r} does not match: {size[ch]} vs {s}')
             else:
                 size[ch] = s
-            holders.setdefault(ch, []).append((o, g))
+            if g or not holders.get(ch):
+                holders.setdefault(ch, []).append((o, g))
     # typing: a label that is summed (absent from the output) and appears in exactly two operands is a contraction;
     # a label kept in the output and shared by operands is a Hadamard (batch) index
     for ch, hs in holders.items():
@@ -781,6 +794,20 @@ class FakeTime:
         return 0.0
 
 
+class FakeSys:
+    import sys as _sys
+    float_info = _sys.float_info
+
+    class stdout:
+        @staticmethod
+        def write(*a, **k):
+            return None
+
+        @staticmethod
+        def flush(*a, **k):
+            return None
+
+
 def libs():
     return {'numpy': FakeNumpy, 'scipy': FakeScipy, 'scipy.linalg': FakeScipyLinalg, 'scipy.sparse.linalg': FakeSparseLinalg, 'scipy.sparse': FakeSparse,
-            'time': FakeTime, 'math': math, 'typing': object(), 'sys': object(), '__future__': object()}
+            'time': FakeTime, 'math': math, 'typing': object(), 'sys': FakeSys, '__future__': object()}
